@@ -208,3 +208,18 @@ def eval_terms(tag: str, imports: str, exprs: list[str], timeout: int = 600) -> 
     text = HEADER + imports + "\n" + "\n".join(f"Eval vm_compute in ({e})." for e in exprs) + "\n"
     rc, out = coqc_text(tag, text, timeout)
     return out
+
+
+def coqchk(props_file: str, timeout: int = 2400):
+    """Re-check the compiled property file and everything it depends on with the independent checker.
+    Returns (ok, axioms text, seconds)."""
+    mod = "TS." + props_file[:-2].replace("/", ".")
+    t0 = time.time()
+    with _Lock():
+        p = subprocess.run(["timeout", str(timeout), "coqchk", "-silent", "-o", "-Q", ".", "TS", mod], cwd=COQ,
+                           stdout=subprocess.PIPE, stderr=subprocess.STDOUT, text=True)
+    out = p.stdout
+    ax = ""
+    if "* Axioms:" in out:
+        ax = out.split("* Axioms:", 1)[1].split("* Constants/Inductives relying on type-in-type", 1)[0].strip()
+    return p.returncode == 0, " ".join(ax.split()), time.time() - t0
